@@ -19,7 +19,7 @@ CLAIM = dict(
          "with a rounding at every float operation of the code: for every rounding with |rnd x - x| <= eps|x| and every history of n total-roundings with "
          "non-negative weights, |_total_weight - sum of stored weights| <= ((1+eps)^n - 1) * 2 * peak <= ((1+eps)^n - 1) * 2 (1+eps)^n * (sum of all weights ever handed in); "
          "an emptied structure has total exactly 0; insert stores the weight exactly; the concrete binary64 rounding rnd53 (defined over Z and Q) satisfies the hypothesis "
-         "with eps = 2^-53 for every rational. Tie: extracted model at rnd53 vs the class, bit for bit after every operation; the proved bounds evaluated on the class's own outputs.",
+         "with eps = 2^-53 for every rational and is idempotent, so under binary64 max_weight bounds every stored weight; stored weights are exactly the specification's when every increment creates its key, within (1-+eps)^j otherwise; update_total_weight() and the 1e-7 guard of Gillespie_simple_contagion restore relative accuracy and non-negativity. Tie: extracted model at rnd53 vs the class, bit for bit after every operation; the proved bounds evaluated on the class's own outputs.",
     design='DESIGN.md section 4, C16 (float side)',
     technique='Coq proof (rounding error recurrence over histories; relative error of round-to-nearest-even) + bit-exact extracted-model/implementation correspondence + proved bounds as oracle',
     note='part of C16; overflow (|x| >= 2^1024) and division results in the subnormal range are outside rnd53 (unbounded exponent)')
